@@ -153,3 +153,13 @@ package analysis
 //@   ensures[function-expression-is-walked] hits("cgFuncDefExp#0") == 1
 //@   at call cgFuncDefExp#0 before assert[function-expression-is-walked] arg1 == node.Exp
 //@ end
+
+// if / elseif / else: every condition and every block is walked, the block in a scope whose range is the block's
+//@ func (*Analysis).cgIfStat
+//@   props C06 C07 C11 C20
+//@   loop range:node.Exps#1 exits-early-only-if [every-branch-is-walked] false
+//@   loop range:node.Exps#1 step [every-condition-and-block-is-walked] hits("cgExp#0") == prev(hits("cgExp#0")) + 1 && hits("cgBlock#0") == prev(hits("cgBlock#0")) + 1
+//@   at call cgExp#0 before assert[condition-is-walked] arg1 == exp
+//@   at call cgBlock#0 before assert[block-is-walked-in-its-own-scope] arg1 == node.Blocks[i] && a.curScope == subScope
+//@   at call CreateScopeInfo#0 before assert[branch-scope-has-the-range-of-its-block] arg2 == node.Blocks[i].Loc && arg0 == scope
+//@ end
